@@ -193,7 +193,9 @@ def cseg_field_guard(repo, col):
 def _scale_sources(fn, defs, direct_only=False):
     """Classify local names by which scale's field they derive from:
     returns {name: set of (which, field)} with which in {old,new},
-    field in {size, chunk_sizes}."""
+    field in {size, chunk_sizes}.  With direct_only the derivation follows
+    only renamings, element access and conversions (no arithmetic): the name
+    *is* that field or an element of it."""
     out = {}
     # names bound directly to info["scales"][E]
     scale_of = {}
@@ -205,14 +207,41 @@ def _scale_sources(fn, defs, direct_only=False):
             if "['scales'][" in t:
                 which = "new" if "+ 1" in t or "+1" in t else "old"
                 scale_of[name] = which
+
+    def plain(v):
+        """Value that only renames / indexes / converts other names."""
+        if isinstance(v, (ast.Name, ast.Subscript, ast.Attribute)):
+            return True
+        if isinstance(v, (ast.Tuple, ast.List)):
+            return all(plain(e) for e in v.elts)
+        if isinstance(v, ast.Call):
+            nm = (call_name(v) or "").split(".")[-1]
+            return nm in ("asarray", "array", "tuple", "list", "zip",
+                          "enumerate", "reversed", "int") and \
+                all(plain(a) for a in v.args)
+        return False
+
+    def direct_closure(name):
+        seen, work = set(), [name]
+        while work:
+            n = work.pop()
+            if n in seen:
+                continue
+            seen.add(n)
+            for d in defs.get(n, []):
+                if d.value is not None and plain(d.value):
+                    work.extend(names_in(d.value) - seen)
+        return seen
     for name in defs:
         tags = set()
         clos = closure_names(fn.node, [name], defs)
         if direct_only:
-            clos = {name}
+            clos = direct_closure(name)
         for n in clos:
             for d in defs.get(n, []):
                 if d.value is None:
+                    continue
+                if direct_only and not plain(d.value):
                     continue
                 for sub in walk_local(d.value):
                     if isinstance(sub, ast.Subscript) and \
@@ -229,6 +258,24 @@ def _scale_sources(fn, defs, direct_only=False):
                         if which:
                             tags.add((which, sub.slice.value))
         out[name] = tags
+    # accumulators: `problems.append(...)` under a test on tagged names makes
+    # `problems` stand for that test (`if problems: raise`)
+    from .dataflow import control_names
+    from .core import enclosing_stmt_map
+    owner = enclosing_stmt_map(fn.node)
+    for _ in range(2):
+        for c in calls_in(fn.node):
+            if isinstance(c.func, ast.Attribute) and \
+                    c.func.attr in ("append", "extend", "add") and \
+                    isinstance(c.func.value, ast.Name):
+                st = owner.get(id(c))
+                if st is None:
+                    continue
+                ctl = control_names(fn.node, st)
+                tags = set()
+                for n in ctl:
+                    tags |= out.get(n, set())
+                out.setdefault(c.func.value.id, set()).update(tags)
     return out
 
 
@@ -316,6 +363,33 @@ def pyramid_guards(repo, col):
                     if n_ is not None:
                         hn.append(n_)
             und_g = bool(hn) and cfg.every_path_passes(cfg.entry, target, hn)
+            if not und_g:
+                # the same question on the function as written (helpers that
+                # were inlined above are calls there)
+                ofn = getattr(fn, "inlined_from", fn)
+                ocfg = ofn.cfg()
+                oloop = None
+                for st_ in stmts_of(ofn.node):
+                    if isinstance(st_, ast.For) and any(
+                            _attr_call(c_, "write_chunk") for s_ in st_.body
+                            for c_ in calls_in(s_)):
+                        oloop = st_
+                otarget = ocfg.node_of(oloop) if oloop is not None else None
+                oowner = enclosing_stmt_map(ofn.node)
+                ohn = []
+                for c_ in calls_in(ofn.node):
+                    h_ = resolve_local_call(ofn, c_)
+                    if h_ is None or h_ is ofn:
+                        continue
+                    if any(isinstance(x_, ast.If) and
+                           block_always_raises(x_.body) or
+                           isinstance(x_, ast.Raise)
+                           for x_ in ast.walk(h_.node)):
+                        n_ = ocfg.node_of(oowner.get(id(c_)))
+                        if n_ is not None:
+                            ohn.append(n_)
+                und_g = otarget is not None and bool(ohn) and \
+                    ocfg.every_path_passes(ocfg.entry, otarget, ohn)
         if ok and ("old", "size") in required:
             # the guard must reject a pair of scales as soon as ONE axis is
             # inconsistent: what holds on its fall-through path is then an
@@ -621,6 +695,67 @@ def flush_chain(repo, col):
                                   for pat in _EMPTY_TESTS)
                 if loop is not None and _after(fn.node, st, loop):
                     continue
+                if not allowed and guard is not None:
+                    # `if self._closed: return` - idempotent close.  Sound
+                    # when storing anything clears the flag again: every
+                    # store_* method the class resolves to assigns it False
+                    flag = _flag_attr(guard.test)
+                    if flag is not None:
+                        cls_ = repo.cls("sharded_file_accessor",
+                                        qn.split(".")[0])
+                        stores = {}
+                        for c_ in reversed(repo.mro(cls_)):
+                            for mn_, mf_ in c_.methods.items():
+                                if mn_.startswith("store_"):
+                                    stores[mn_] = mf_
+                        def resets_(mf_, seen_=()):
+                            if any(isinstance(x_, ast.Assign) and any(
+                                    norm(t_) == "self." + flag
+                                    for t_ in x_.targets) and
+                                    isinstance(x_.value, ast.Constant) and
+                                    x_.value.value is False
+                                    for x_ in ast.walk(mf_.node)):
+                                return True
+                            # through another store method of the object
+                            for c_ in calls_in(mf_.node):
+                                if isinstance(c_.func, ast.Attribute) and \
+                                        isinstance(c_.func.value, ast.Name) \
+                                        and c_.func.value.id == "self" and \
+                                        c_.func.attr in stores and \
+                                        c_.func.attr not in seen_ and \
+                                        stores[c_.func.attr] is not mf_:
+                                    if resets_(stores[c_.func.attr],
+                                               seen_ + (c_.func.attr,)):
+                                        return True
+                            # a method that never reaches the buffered
+                            # container has nothing to flush later
+                            from .core import closure_text
+                            txt_ = closure_text(mf_)
+                            if ("self.%s" % attr) not in txt_ and \
+                                    "get_shard" not in txt_ and \
+                                    "get_scale" not in txt_ and \
+                                    "store_cmc_chunk" not in txt_ and \
+                                    "store_chunk" not in txt_.replace(
+                                        "def store_chunk", ""):
+                                return True
+                            return False
+                        resets = {mn_: resets_(mf_)
+                                  for mn_, mf_ in stores.items()}
+                        if stores and all(resets.values()):
+                            allowed = True
+                        elif stores:
+                            col.add(rule, fn, "early return under `%s`"
+                                    % norm(guard.test), False,
+                                    "close() returns at once while `self.%s` "
+                                    "is set, and %s stores new chunks without "
+                                    "clearing it: everything stored after the "
+                                    "first close() is never written"
+                                    % (flag, ", ".join(
+                                        "%s.%s" % (mf_.qualname.split(".")[0],
+                                                   mn_)
+                                        for mn_, mf_ in stores.items()
+                                        if not resets[mn_])), node=st)
+                            continue
                 col.add(rule, fn, "early return under `%s`"
                         % (norm(guard.test) if guard is not None else "-"),
                         allowed, "" if allowed else "close() can return before "
@@ -640,6 +775,20 @@ def flush_chain(repo, col):
             "ShardedFileAccessor no longer registers self.close with atexit "
             "unconditionally: scripts that never call close() lose every "
             "buffered shard", node=reg)
+
+
+def _flag_attr(test):
+    """X for tests `self.X` / `self.X is True` / `self.closed` (property
+    names are returned as written)."""
+    if isinstance(test, ast.Attribute) and isinstance(test.value, ast.Name) \
+            and test.value.id == "self":
+        return test.attr
+    if isinstance(test, ast.Compare) and len(test.ops) == 1 and \
+            isinstance(test.ops[0], (ast.Is, ast.Eq)) and \
+            isinstance(test.comparators[0], ast.Constant) and \
+            test.comparators[0].value is True:
+        return _flag_attr(test.left)
+    return None
 
 
 def _enclosing_if(fnode, target):
@@ -791,7 +940,11 @@ def minishard_drain(repo, col):
     rule = "E-ORDER.drain"
     from .core import minishard_buffer_attr
     bufattr = minishard_buffer_attr(repo)
-    fn = repo.func("sharded_file_accessor", "MiniShard.close")
+    from .core import inline_view
+    # new helpers are looked through; the two operations the clauses name
+    # (append, flush_buffer) stay calls
+    fn = inline_view(repo.func("sharded_file_accessor", "MiniShard.close"),
+                     keep=("append", "flush_buffer"))
     cfg = fn.cfg()
     drains = []
     other_form = False
@@ -873,9 +1026,19 @@ def minishard_drain(repo, col):
                     "" if okf else "gap filler is not a zero-length entry at "
                     "the next expected id", node=fills[0])
     # flush_buffer: loop while next id parked
-    fb = repo.func("sharded_file_accessor", "MiniShard.flush_buffer")
+    fb = inline_view(repo.func("sharded_file_accessor",
+                               "MiniShard.flush_buffer"), keep=("append",))
     loops = [s for s in stmts_of(fb.node) if isinstance(s, ast.While)]
-    okl = bool(loops) and (norm(loops[0].test) in (
+    other_loops = [s for s in stmts_of(fb.node)
+                   if isinstance(s, ast.For) and
+                   ("self." + bufattr) in norm(s.iter)]
+    if not loops and other_loops:
+        col.add(rule, fb, "while self.next_cmc in self._chunk_buffer", True,
+                "flush_buffer walks the buffer in a form this rule does not "
+                "interpret (%s)" % norm(other_loops[0].iter)[:50],
+                node=other_loops[0], undecided=True)
+        loops = None
+    okl = loops is not None and bool(loops) and (norm(loops[0].test) in (
         "self.next_cmc in self." + bufattr,) or (
         isinstance(loops[0].test, ast.Compare) and
         isinstance(loops[0].test.ops[0], ast.In) and
@@ -884,10 +1047,11 @@ def minishard_drain(repo, col):
             norm(d.value) == "self.next_cmc"
             for d in local_defs(fb.node).get(loops[0].test.left.id, [])
             if d.value is not None)))
-    col.add(rule, fb, "while self.next_cmc in self._chunk_buffer", okl,
-            "" if okl else "flush_buffer does not loop while the next "
-            "expected id is parked", node=loops[0] if loops else None,
-            undecided=bool(loops) and not okl)
+    if loops is not None:
+        col.add(rule, fb, "while self.next_cmc in self._chunk_buffer", okl,
+                "" if okl else "flush_buffer does not loop while the next "
+                "expected id is parked", node=loops[0] if loops else None,
+                undecided=bool(loops) and not okl)
     if loops:
         pops = [c for c in calls_in(loops[0]) if _attr_call(c, "pop")]
         apps = [c for c in calls_in(loops[0])
